@@ -3,9 +3,11 @@ import os
 import re
 import framework as fw
 import c20_opts   # round 6: to_nsq main loop end-to-end leg + option surface (sub-builder `relay`)
+import c20_audit7  # audit round 7 (sub-builder c20b): n2n histories / give-up, to_nsq refusal, GET endpoint, filter oracle
 
 TIE = ["Nsq.Tie.ToolsSplit", "Nsq.Tie.ToolsRelay"] + c20_opts.TIE
 PROPS = ["Nsq.Props.C20", "Nsq.Props.C20GiveUp"] + c20_opts.PROPS
+TIE, PROPS = TIE + c20_audit7.TIE, PROPS + c20_audit7.PROPS   # audit7-b
 CORPUS = os.path.join(fw.ROOT, "corpus", "C20")
 F5_KEY = "to_nsq-unterminated-final-record"
 
@@ -103,6 +105,7 @@ def run_relay(ctx, binp, test, name, corr_broken, n):
                                                "oracle": [l for l in log.splitlines() if l.startswith("ORACLE-DONE")]}
     for o, i in list(zip(ops, impl))[:2]:
         ctx.add_sample({"op": o[:160], "impl": i[:160]})
+    c20_audit7.filter_oracle(ctx, log, name, corr_broken)   # audit7-b: FILTER lines (n2n only), expectation from the input body
     for l in log.splitlines():
         if l.startswith("ORACLE-FAIL"):
             what = l[len("ORACLE-FAIL "):]
@@ -179,6 +182,7 @@ def run(ctx):
     gen_ok, _ = ctx.gen("e8_relay")
     ctx.gen(c20_opts.SPEC)
     c20_opts.declare(ctx)
+    c20_audit7.declare(ctx)   # audit7-b
     built = []
     for mod in TIE + PROPS:
         ok, log = ctx.lean_build([mod])
@@ -234,12 +238,14 @@ def run(ctx):
         c20_opts.tonsq_e2e(ctx, b_tonsq, corr_broken)
     # ---- relays
     if not ctx.replay_in:
-        b = ctx.go_test_binary("apps/nsq_to_nsq", ["e8/n2n_test.go", "e8/n2n_opts_test.go", "e8/stub_nsqd.go"], "e8n2n", pkgname="main")
+        b = ctx.go_test_binary("apps/nsq_to_nsq", ["e8/n2n_test.go", "e8/n2n_opts_test.go", "e8/stub_nsqd.go"] + c20_audit7.N2N_FILES, "e8n2n", pkgname="main")
         if not b:
             ctx.broken_ties.append("harness e8/n2n_test.go does not compile against the current tree")
         else:
             run_relay(ctx, b, "TestVerifN2NCorr", "n2n", corr_broken, ctx.budget(720, 7200))
             c20_opts.opts_leg(ctx, b, "TestVerifN2NOpts", "n2n_opts", corr_broken)
+            c20_audit7.n2n_hist(ctx, b, corr_broken)     # audit7-b: several outstanding transactions, out of order
+            c20_audit7.giveup_n2n(ctx, b, corr_broken)   # audit7-b: known finding replayed on nsq_to_nsq too
         b = ctx.go_test_binary("apps/nsq_to_http", ["e8/n2h_test.go", "e8/n2h_opts_test.go", "e8/stub_nsqd.go"], "e8n2h", pkgname="main")
         if not b:
             ctx.broken_ties.append("harness e8/n2h_test.go does not compile against the current tree")
